@@ -86,7 +86,7 @@ class C11(Base):
         if bad:
             return bad
         ops = case.partition(" ")[2].split(";")
-        obs = impl_obs.split(";")
+        obs = impl_obs.split(";") if impl_obs else []
         if len(ops) != len(obs):
             return "observation count %d != op count %d" % (len(obs), len(ops))
         m = {}
